@@ -20,6 +20,11 @@ Definition pag_hypsb (g : mgraph) : bool :=
 Definition rounds_ok_b (g : mgraph) : bool :=
   let t := temp_cpdag g in rounds_ext_b (length (U t)) t.
 
+(* for the harness: evaluated only when the circle component has at most 8 o-o edges (the enumeration of extensions is
+   exponential in that number); larger components report true *)
+Definition rounds_ok_small_b (g : mgraph) : bool :=
+  if Nat.leb (length (U (temp_cpdag g))) 8 then rounds_ok_b g else true.
+
 Lemma hyps_upto_3 :
   forallb (fun n => forallb (fun m0 => let g := pag_of_mag m0 in pag_hypsb g && rounds_ok_b g) (all_mags n)) [0; 1; 2; 3] = true.
 Proof. vm_compute. reflexivity. Qed.
